@@ -28,6 +28,11 @@
 (* (the two identities of the property), and it must telescope when the     *)
 (* input was built to (expect).                                             *)
 (*                                                                         *)
+(* "fraggeom": the fragment geometry distribute_atoms builds for one         *)
+(* selection argument with 0, 1 or 2 broken links (inputs enumerated by      *)
+(* C15Oniom!InitFrag): selected atoms + caps at staying + f (leaving -       *)
+(* staying) exactly; the other fragment and the caller's geometry untouched. *)
+(*                                                                         *)
 (* "group": placement of a capping group by Link.relink (anchor position is *)
 (* judged exactly in the G part): recorded squared distances and one         *)
 (* orientation cosine, OBSERVATIONAL.                                       *)
@@ -39,7 +44,10 @@
 (* returned energy/potential are those of the saved evaluation, exact       *)
 (* embedding |E - E_FCI| <= TolE when flagged AND the recorded fragment+bath *)
 (* dimensions all equal the number of orbitals, relabelled partner run      *)
-(* gives the same energy.                                                   *)
+(* gives the same energy.  Documented options: virtual_orbital_threshold =  *)
+(* 0 turns the bath truncation off (recorded dimensions span the space),    *)
+(* the search starts at initial_chemical_potential, the result of a         *)
+(* caller-supplied optimizer is the chemical potential that is used.        *)
 (***************************************************************************)
 EXTENDS C15Defs
 
@@ -160,10 +168,24 @@ DmetVerdict(j) ==
      ELSE IF ~(Close(fin.mu, r[2].mu, 0) /\ Close(fin.e, r[2].e, 0)) THEN "returned-values-not-from-final-evaluation"
      ELSE IF ~Close(j.recheck, <<0, 0>>, j.tolN) THEN "electron-count-mismatch-at-convergence"
      ELSE IF ~Close(r[2].mis, <<0, 0>>, j.tolN) THEN "electron-count-mismatch-at-convergence"
+     ELSE IF j.vot = "zero" /\ ~SpansWholeSpace(j) THEN "virtual-orbital-threshold-0-still-truncates-the-bath"
+     ELSE IF ~Close(j.events[1].mu, j.mu0, 0) THEN "initial-chemical-potential-not-used"
+     ELSE IF j.useropt /\ ~Close(fin.mu, j.optret, 0) THEN "user-optimizer-result-not-used"
      ELSE IF j.exact /\ ~SpansWholeSpace(j) THEN "skip-premise-not-met"       \* a bath smaller than the fragment: not the exact case
      ELSE IF j.exact /\ ~Close(fin.e, j.efci, j.tolE) THEN "exact-embedding-energy-differs-from-fci"
      ELSE IF j.haspartner /\ ~Close(fin.e, j.partner, j.tolE) THEN "relabelled-atoms-different-energy"
      ELSE "ok"
+
+\* ---- fragment geometries through distribute_atoms (no energies): selection form x broken links ---------------
+\* frags: the fragment under test followed by a plain whole-system fragment; geometry_after: the caller's geometry list
+\* after the construction (frame condition: unchanged)
+FragGeomVerdict(j) ==
+  IF ~(\A i \in 1..Len(j.frags) : SelOK(j.frags[i].sel, NAtoms(j))) THEN "malformed-selection"
+  ELSE IF ~OnGrid(j) THEN "malformed-off-grid"
+  ELSE IF ~DistributionOK(j, j.frags[1]) THEN "fragment-geometry-is-not-selection-plus-caps"
+  ELSE IF \E i \in 2..Len(j.frags) : ~DistributionOK(j, j.frags[i]) THEN "other-fragment-disturbed"
+  ELSE IF j.geometry_after # j.geometry THEN "input-geometry-modified"
+  ELSE "ok"
 
 \* ---- capping groups (OBSERVATIONAL, recorded fixed-point scalars, units 10^-8) ---------------------------
 \* rigid placement: the pairwise squared distances of the group are those of the template (d2n = d2t) and the group
@@ -177,6 +199,7 @@ GroupVerdict(j) ==
 
 Verdict(j) == CASE j.kind = "oniom" -> OniomVerdict(j)
                 [] j.kind = "group" -> GroupVerdict(j)
+                [] j.kind = "fraggeom" -> FragGeomVerdict(j)
                 [] j.kind = "dmet"  -> DmetVerdict(j)
                 [] OTHER -> "unknown-kind"
 
